@@ -96,3 +96,10 @@ check(
     "Units are never registered under a legacy spelling; a type without any base is legal and only counted; captions, exception classes and the valid-unit fallback are not modelled.",
     "4/C14",
 )
+check(
+    "C15",
+    "runtime monitoring: registry-pure monitor (canonical snapshot of attributes and getters around every query) + warm-vs-fresh differential: every query of an interleaved query/registration history is repeated first thing on a fresh real database rebuilt from the accepted registrations, and asked twice on the warm one",
+    "Held on hundreds (thorough: thousands) of 40-60 step histories over a private database: 18 accepted-kind and 6 rejected-kind registrations (later units, overrides of limits/default unit/quantity type, from_category, legacy spellings) interleaved with 41 kinds of self-contained queries (creation in every form, conversion, validation, arithmetic incl. CreateDerived/ObtainQuantity derived operands, failing lookups, pickles) over registered, not-yet-registered, legacy and unknown names; thorough adds POSC-based histories with a fresh POSC per query.",
+    "Outcomes are compared as canonical values or exception family, not messages; only registrations may change what the database reports.",
+    "4/C15",
+)
